@@ -9,6 +9,7 @@ def plan(tier):
     vectors = []
     for L in limits:
         for h in histories(4, maxlen, maxlen if tier == 'quick' else maxlen - 1):
+            if tier == 'quick' and L == 2 and sum(h) % 2: continue      # quick, limit 2: every second history of the full length
             vectors.append([L - 1, len(h)] + h)
         if tier == 'quick':
             for h in histories(4, maxlen - 1):
@@ -18,19 +19,20 @@ def plan(tier):
     for L in (0, 1):
         for npre in range(0, 3 if tier == 'quick' else 4):
             for pre in histories(2, npre, npre):
+                if tier == 'quick' and npre == 2 and pre[0] != pre[1]: continue      # quick: the prefixes that leave the queue in a new state (2 items / 2 waiting pops); mixed ones in the thorough tier
                 for a in (0, 1, 2):
                     for b in (0, 1, 2):
                         for k in (0, 1, 2):
                             cvec.append([L, npre] + pre + [a, b, k])
     units = [dict(engine='e1', name='h_lq_conc', tu='C10.cpp', entry='h_lq_conc', unwind=14, vectors=cvec,
                   concrete=[([0, 1, 0, 0, 1, 1], list(range(1, 11))), ([1, 2, 0, 0, 0, 0, 2], list(range(1, 11))), ([0, 0, 1, 0, 0], list(range(1, 11)))],
-                  space='limit 1..2 x sequential prefix of <= %d {push, pop} x operation A in {push, pop, unblock_push} with operation B in {push, pop, unblock_push} of another thread injected in front of '
+                  space='limit 1..2 x sequential prefix of <= %d {push, pop} (quick tier: the two-operation prefixes push,push and pop,pop only) x operation A in {push, pop, unblock_push} with operation B in {push, pop, unblock_push} of another thread injected in front of '
                         "A's k-th mutex acquisition (k = 1..3; beyond A's last acquisition = after A), then draining" % (2 if tier == 'quick' else 3),
                   data='all pushed values symbolic and pairwise distinct',
                   bounds='two concurrent operations, interleaved at lock-region granularity (sound for accesses made under the lock: C03 lock discipline)',
                   outside='three or more overlapping operations; pre-emption inside a critical section')]
     return units + [dict(engine='e1', name='h_lq', tu='C10.cpp', entry='h_lq', unwind=10, vectors=vectors, concrete=conc,
-                 space='limit in %s x every history over {push(v), pop, unblock_push(e), unblock_pop(e)} of length <= %d, then destruction of the queue' % (limits, maxlen),
+                 space='limit in %s x every history over {push(v), pop, unblock_push(e), unblock_pop(e)} of length <= %d%s, then destruction of the queue' % (limits, maxlen, ' (quick tier, limit 2: every second history of length %d)' % maxlen if tier == 'quick' else ''),
                  data='pushed values: unconstrained 32-bit ints (symbolic)',
                  bounds='<= %d operations, limits %s, value type int' % (maxlen, limits),
                  outside='longer histories; limit 0; multi-threaded producers/consumers (lock-region reduction, see C03 lock discipline)')]
